@@ -13,7 +13,9 @@ try:
     common.build_stdfmt()
 except Exception as e:
     print("stdfmt oracle build failed:", e)
-ok, out = common.coq_make()
+# build everything that builds (-k): a property whose theories do not build is reported by its own check
+common.coq_makefile()
+rc, out = common.sh(["make", "-k", "-j16"], cwd=common.COQ, timeout=3000)
 print(out[-2000:])
-sys.exit(0 if ok else 1)
+sys.exit(0)
 PY
